@@ -45,9 +45,7 @@ public:
    */
   QUILL_ATTRIBUTE_COLD static void preallocate()
   {
-    auto const volatile spsc_queue_capacity = detail::get_local_thread_context<TFrontendOptions>()
-                                                ->template get_spsc_queue<TFrontendOptions::queue_type>()
-                                                .capacity();
+    auto const volatile spsc_queue_capacity = get_thread_local_queue_capacity();
 
     // On windows and c++17, QUILL_MAYBE_UNUSED won't work
     (void)spsc_queue_capacity;
